@@ -627,9 +627,10 @@ fn plan(lay: &Layout, orig: &[u8], rng: &mut Rng, thorough: bool) -> Vec<Mutn> {
             ("wal", "slack") => (1, 0),
             ("wal", s) if s.ends_with("_seq") => (1, 3),
             ("wal", _) => (0, 4),
-            ("toc", _) => (14, 3),
+            ("toc", _) => (12, 3),
+            ("payload", "zstd_chunk") => (0, 4),
             ("payload", _) => (1, 3),
-            ("index", "tantivy") => (1, 4),
+            ("index", "tantivy") => (0, 4),
             ("index", _) => (2, 3),
             _ => (0, 0),
         }
